@@ -62,6 +62,11 @@ type NS0 []*T0
 
 func (NS0) M0() {}
 
+// NS1: a named slice that implements I0 although its elements (S0) do not.
+type NS1 []S0
+
+func (NS1) M0() {}
+
 // Hostile types for the bad-input / visualize grammars.
 type HChan <-chan int
 type HUnexp struct{ x int } //nolint:unused
@@ -409,6 +414,7 @@ func init() {
 	hostiles["error"] = reflect.TypeOf((*error)(nil)).Elem()
 	hostiles["any"] = reflect.TypeOf((*interface{})(nil)).Elem()
 	hostiles["NS0"] = reflect.TypeOf(NS0(nil))
+	hostiles["NS1"] = reflect.TypeOf(NS1(nil))
 	hostiles["arr"] = reflect.TypeOf([2]*T0{})
 	hostiles["pp"] = reflect.TypeOf((**T0)(nil))
 	hostiles["int"] = reflect.TypeOf(0)
